@@ -31,6 +31,11 @@ enum Body {
     RejectWithComment,
     /// exactly what the agent itself installs: family terms with route-filters and a final reject
     InstalledShape,
+    /// the default action has modifiers next to the reject (not a bare default reject)
+    RejectWithModifiersBefore,
+    RejectWithModifiersAfter,
+    /// two default `then` elements
+    TwoThens,
 }
 
 fn permutations<T: Clone>(items: &[T]) -> Vec<Vec<T>> {
@@ -98,7 +103,7 @@ fn statements(full: bool) -> Vec<Gen> {
         (vec![" junos:changed-seconds=\"1\"".into()], "foreign attribute"),
         (vec![format!(" xmlns:jcmd=\"{JCMD}\"")], "duplicate xmlns:jcmd"),
     ];
-    let bodies = [Body::Reject, Body::RejectFirst, Body::NameOnly, Body::TermAndReject, Body::Accept, Body::RejectWithComment, Body::InstalledShape];
+    let bodies = [Body::Reject, Body::RejectFirst, Body::NameOnly, Body::TermAndReject, Body::Accept, Body::RejectWithComment, Body::InstalledShape, Body::RejectWithModifiersBefore, Body::RejectWithModifiersAfter, Body::TwoThens];
     let names = if full { vec!["fltr-foo", "a&b<c \"q\""] } else { vec!["fltr-foo", "a&b<c \"q\""] };
     let mut out = Vec::new();
     for (comment, expr, cdesc) in &comments {
@@ -129,12 +134,15 @@ fn statements(full: bool) -> Vec<Gen> {
                             Body::TermAndReject => format!("<name>{n}</name><term><name>t1</name><then><accept/></then></term><then><reject/></then>"),
                             Body::Accept => format!("<name>{n}</name><then><accept/></then>"),
                             Body::RejectWithComment => format!("<name>{n}</name><!-- c --><then><!-- c --><reject/></then>"),
+                            Body::RejectWithModifiersBefore => format!("<name>{n}</name><then><community><add/><community-name>blackhole</community-name></community><metric><metric>10</metric></metric><reject/></then>"),
+                            Body::RejectWithModifiersAfter => format!("<name>{n}</name><then><reject/><local-preference><local-preference>50</local-preference></local-preference></then>"),
+                            Body::TwoThens => format!("<name>{n}</name><then><reject/></then><then><accept/></then>"),
                             Body::InstalledShape => format!("<name>{n}</name><term><name>inet</name><from><family>inet</family><route-filter><address>192.0.2.0/24</address><choice-ident>prefix-length-range</choice-ident><choice-value>/24-/32</choice-value></route-filter></from><then><accept/></then></term><term><name>inet6</name><from><family>inet6</family><route-filter><address>2001:db8::/32</address><choice-ident>prefix-length-range</choice-ident><choice-value>/32-/48</choice-value></route-filter></from><then><accept/></then></term><then><reject/></then>"),
                         };
                         let trivial = matches!(body, Body::Reject | Body::RejectFirst | Body::RejectWithComment);
                         let annotated = expr.is_some();
                         let selected = (annotated && *is_active && trivial).then(|| ((*name).to_string(), canon(expr.unwrap())));
-                        let may_abort = annotated && *is_active && matches!(body, Body::TermAndReject | Body::Accept | Body::InstalledShape);
+                        let may_abort = annotated && *is_active && matches!(body, Body::TermAndReject | Body::Accept | Body::InstalledShape | Body::RejectWithModifiersBefore | Body::RejectWithModifiersAfter | Body::TwoThens);
                         let orders = if full || attrs.len() <= 3 { permutations(&attrs) } else { vec![attrs.clone(), attrs.iter().rev().cloned().collect()] };
                         let orders: BTreeSet<Vec<String>> = orders.into_iter().collect();
                         for order in orders {
